@@ -1839,6 +1839,15 @@ bool isConstrainedSystemFullyActuated(
   CS.GPT_full_qr.compute(CS.GPT);
   unsigned int r = unsigned(CS.GPT_full_qr.rank());
 
+  //rank() counts the pivots relative to the largest one: if the unactuated
+  //columns of G vanish up to rounding (the constraints do not depend on the
+  //unactuated coordinates) the largest pivot is itself rounding noise.
+  if(CS.GPT_full_qr.maxPivot() <= CS.G.norm()
+      * std::numeric_limits<double>::epsilon()
+      * double(std::max(CS.GPT.rows(),CS.GPT.cols()))) {
+    r = 0;
+  }
+
   bool isCompatible = false;
   if(r == (n-na)) {
     isCompatible = true;
